@@ -330,6 +330,11 @@ func (i *Interpreter) eval(expr ast.Expr, env *environment.Environment, isRepl b
 		return value, &ControlFlowSignal{Type: ControlFlowNone, LineNumber: 0}
 
 	case *ast.Literal:
+		if runes, ok := e.Value.([]rune); ok {
+			// string literals are scanned as rune slices; at run time every
+			// string has the same representation, whatever produced it
+			return string(runes), &ControlFlowSignal{Type: ControlFlowNone, LineNumber: 0}
+		}
 		return e.Value, &ControlFlowSignal{Type: ControlFlowNone, LineNumber: 0}
 
 	case *ast.Grouping:
@@ -826,6 +831,8 @@ func stringifyOperand(value interface{}) (string, error) {
 		return fmt.Sprintf("%v", v), nil
 	case []rune:
 		return fmt.Sprintf("%v", string(v)), nil
+	case bool:
+		return fmt.Sprintf("%v", v), nil
 	default:
 		return "", fmt.Errorf("cannot stringify value of type %T", value)
 	}
